@@ -45,6 +45,13 @@ type c12Writer struct {
 	commits int
 	status  int
 	body    bytes.Buffer
+	head    bool // the request method is HEAD
+	infos   int  // informational (1xx) headers sent before the response header
+}
+
+// bodyAllowed: net/http sends no body for HEAD requests and for 1xx, 204, 304
+func (w *c12Writer) bodyAllowed() bool {
+	return !w.head && w.status != 204 && w.status != 304 && !(w.status >= 100 && w.status <= 199)
 }
 
 func (w *c12Writer) Header() http.Header { return w.h }
@@ -56,13 +63,30 @@ func (w *c12Writer) WriteHeader(code int) {
 	if code < 100 || code > 999 {
 		panic(fmt.Sprintf("invalid WriteHeader code %v", code))
 	}
+	if code >= 100 && code <= 199 && code != 101 {
+		w.infos++ // informational: sent at once, the response header is still to come
+		return
+	}
 	w.commits = 1
 	w.status = code
 	w.snap = w.h.Clone()
+	// net/http: no Content-Length with 204 and 304 (nor Content-Type with 304)
+	if code == 204 || code == 304 {
+		w.snap.Del("Content-Length")
+	}
+	if code == 304 {
+		w.snap.Del("Content-Type")
+	}
 }
 func (w *c12Writer) Write(b []byte) (int, error) {
 	if w.commits == 0 {
 		w.WriteHeader(200)
+	}
+	if !w.bodyAllowed() {
+		if w.head {
+			return len(b), nil
+		}
+		return 0, http.ErrBodyNotAllowed
 	}
 	return w.body.Write(b)
 }
@@ -106,6 +130,12 @@ func (p c12Probe) ServeHTTP(w http.ResponseWriter, r *http.Request) (int, error)
 		b := hx.UnH(body)
 		if cl {
 			w.Header().Set("Content-Length", strconv.Itoa(len(b)))
+		}
+		if strings.HasPrefix(mode, "i") {
+			// 103 Early Hints first: informational, the response header proper follows
+			w.Header().Set("Link", "</c12.css>; rel=preload")
+			w.WriteHeader(http.StatusEarlyHints)
+			mode = mode[1:]
 		}
 		if st != "-" {
 			code, _ := strconv.Atoi(st)
@@ -175,6 +205,8 @@ var (
 	c12Once  sync.Once
 	c12Dir   string
 	c12Insts = map[string]*casket.Instance{}
+	c12Base     = map[string]string{} // per site: what a fresh instance answered to the follow-up requests
+	c12BaseLive = map[string]string{}
 )
 
 // template sources used as written bodies and as files: only {{.Method}} is used as an action
@@ -310,6 +342,13 @@ func c12Instance(stackField string) (*httpserver.Server, *casket.Instance, error
 			return nil, nil, err
 		}
 		c12Insts[key] = inst
+		// the answers of the fresh site to the follow-up requests
+		for _, s := range casket.VerifServers(inst) {
+			if hs, ok := s.(*httpserver.Server); ok {
+				c12Base[key] = c12FollowUps(hs)
+				delete(c12BaseLive, key)
+			}
+		}
 	}
 	for _, s := range casket.VerifServers(inst) {
 		if hs, ok := s.(*httpserver.Server); ok {
@@ -383,6 +422,9 @@ func c12Body(w *c12Writer, inner []byte) string {
 
 func c12Classify(ce string, raw []byte, inner []byte) string {
 	var segs []string
+	if len(raw) == 0 {
+		return "-" // no body on the wire (HEAD, 204, 304, or nothing written), whatever Content-Encoding says
+	}
 	if ce == "gzip" {
 		br := bytes.NewReader(raw)
 		zr, err := stdgzip.NewReader(br)
@@ -411,7 +453,7 @@ func c12Classify(ce string, raw []byte, inner []byte) string {
 // c12PathAndBody: the request path for a case and the bytes the innermost handler writes.
 func c12PathAndBody(pathField, script string) (string, []byte, bool) {
 	ext := ".html"
-	if pathField != "html" {
+	if !strings.HasPrefix(pathField, "html") {
 		ext = ".bin"
 	}
 	sp := strings.Split(script, ":")
@@ -439,6 +481,54 @@ func c12PathAndBody(pathField, script string) (string, []byte, bool) {
 	return "/x" + ext, nil, true
 }
 
+// c12Observe serves one request in-process and returns commits, status, Content-Length state, body.
+func c12Observe(srv *httpserver.Server, path, probe string, ae bool, inner []byte) string {
+	return c12ObserveM(srv, "GET", path, probe, ae, inner)
+}
+
+func c12ObserveM(srv *httpserver.Server, method, path, probe string, ae bool, inner []byte) string {
+	r := httptest.NewRequest(method, "http://127.0.0.1"+path, nil)
+	if probe != "" {
+		r.Header.Set("X-Probe", probe)
+	}
+	if ae {
+		r.Header.Set("Accept-Encoding", "gzip")
+	}
+	w := &c12Writer{h: http.Header{}, head: method == "HEAD"}
+	srv.ServeHTTP(w, r)
+	cl := "-"
+	if w.snap != nil {
+		if v := w.snap.Values("Content-Length"); len(v) > 0 {
+			switch {
+			case w.head:
+				cl = "h" // describes the body a GET would get: presence only
+			case len(v) == 1 && v[0] == strconv.Itoa(w.body.Len()):
+				cl = "="
+			default:
+				cl = "!"
+			}
+		}
+	}
+	return fmt.Sprintf("%d %d %s %s", w.commits, w.status, cl, c12Body(w, inner))
+}
+
+var c12FollowProbe = c12Write("200", "tok", 0, 1, "w")
+
+// c12FollowUps: the two follow-up requests, observed in full.
+func c12FollowUps(srv *httpserver.Server) string {
+	return c12Observe(srv, "/ok.txt", "", false, []byte(c12Follow)) + " | " +
+		c12Observe(srv, "/x.html", c12FollowProbe, true, []byte(c12Bodies["tok"]))
+}
+
+func c12Key(stackField string) string {
+	var stack []string
+	if stackField != "" {
+		stack = strings.Split(stackField, ",")
+	}
+	sort.Strings(stack)
+	return strings.Join(stack, ",")
+}
+
 func c12Eval(f []string) (string, []string) {
 	if len(f) != 4 {
 		return "bad-case", nil
@@ -451,31 +541,19 @@ func c12Eval(f []string) (string, []string) {
 	if !ok {
 		return "bad-case", nil
 	}
-	r := httptest.NewRequest("GET", "http://127.0.0.1"+path, nil)
-	r.Header.Set("X-Probe", f[3])
-	if f[2] == "1" {
-		r.Header.Set("Accept-Encoding", "gzip")
+	method := "GET"
+	if strings.HasSuffix(f[1], "-head") {
+		method = "HEAD"
 	}
 	sp := strings.Split(f[3], ":")
-	w := &c12Writer{h: http.Header{}}
-	srv.ServeHTTP(w, r)
-	cl := "-"
-	if w.snap != nil {
-		if v := w.snap.Values("Content-Length"); len(v) > 0 {
-			if len(v) == 1 && v[0] == strconv.Itoa(w.body.Len()) {
-				cl = "="
-			} else {
-				cl = "!"
-			}
-		}
-	}
-	out := fmt.Sprintf("%d %d %s %s", w.commits, w.status, cl, c12Body(w, inner))
+	out := c12ObserveM(srv, method, path, f[3], f[2] == "1", inner)
 
-	// the server keeps serving: a plain request right after
-	fw := &c12Writer{h: http.Header{}}
-	srv.ServeHTTP(fw, httptest.NewRequest("GET", "http://127.0.0.1/ok.txt", nil))
+	// only that request is affected: the follow-up requests (a plain file, and a template
+	// rendered and gzip-compressed, which goes through the pooled buffer and the pooled gzip
+	// writer) must be answered exactly as a fresh instance of the same site answered them
 	follow := "ok"
-	if fw.commits != 1 || fw.status != 200 || fw.body.String() != c12Follow {
+	key := c12Key(f[0])
+	if got := c12FollowUps(srv); got != c12Base[key] || !strings.HasPrefix(got, "1 200 = r:inner:"+hx.HS(c12Follow)) {
 		follow = "bad"
 	}
 	tags := []string{sp[0], "path=" + f[1]}
@@ -510,6 +588,11 @@ func c12Inners() []string {
 		"panic",
 		"panicafter:200:" + body, "panicafter:-:" + body, "panicafter:404:" + long,
 	}
+	// statuses without a body (net/http drops what the handler writes) and an informational prelude
+	out = append(out, c12Write("204", "plain", 0, 1, "w"), c12Write("304", "plain", 0, 0, "w"), c12Write("204", "tok", 0, 0, "c"),
+		c12Write("304", "tok", 0, 1, "w"), c12Write("204", "plain", 1, 0, "w"),
+		c12Write("200", "plain", 0, 1, "iw"), c12Write("404", "tok", 0, 0, "iw"), c12Write("-", "plain", 0, 0, "ic"),
+		c12Write("200", "texec", 0, 1, "iw"), c12Write("201", "plain", 1, 0, "iw"))
 	// bodies that are templates (render fine / do not parse / fail while executing) or plain, with
 	// and without an explicit Content-Length, written with Write, io.Copy, io.WriteString, Write+Flush
 	for _, k := range []string{"plain", "tok", "tparse", "texec"} {
@@ -563,7 +646,10 @@ func c12Gen(g *hx.Gen) {
 				stack := append(append([]string{}, sem...), ts...)
 				sort.Strings(stack)
 				for _, in := range inners {
-					for _, p := range []string{"html", "bin"} {
+					for _, p := range []string{"html", "bin", "html-head", "bin-head"} {
+						if strings.HasSuffix(p, "-head") && (strings.HasPrefix(in, "panicafter") || len(ts) == len(c12Transparent)) {
+							continue // keep the quick tier small: HEAD with no / a random set of pass-through wrappers
+						}
 						for _, ae := range []string{"1", "0"} {
 							if g.Thorough() && len(ts) != 0 && len(ts) != len(c12Transparent) && (p == "bin" && ae == "0") {
 								continue
@@ -596,7 +682,7 @@ func c12Gen(g *hx.Gen) {
 		for i := range body {
 			body[i] = "abcdefghijklmnopqrstuvwxyz \n<>/"[g.Rng.Intn(31)]
 		}
-		st := hx.Pick(g.Rng, []string{"-", "200", "201", "202", "400", "404", "410", "500", "502"})
+		st := hx.Pick(g.Rng, []string{"-", "200", "201", "202", "204", "304", "400", "404", "410", "500", "502"})
 		var in string
 		switch g.Rng.Intn(5) {
 		case 0:
@@ -604,13 +690,13 @@ func c12Gen(g *hx.Gen) {
 		case 1:
 			in = fmt.Sprintf("ret:%d:0", hx.Pick(g.Rng, []int{0, 200, 204, 301, 302, 304}))
 		case 2:
-			in = fmt.Sprintf("write:%s:%s:%d:plain:%d:%s", st, hx.H(body), g.Rng.Intn(2), g.Rng.Intn(2), hx.Pick(g.Rng, []string{"w", "c", "s", "wf", "nw"}))
+			in = fmt.Sprintf("write:%s:%s:%d:plain:%d:%s", st, hx.H(body), g.Rng.Intn(2), g.Rng.Intn(2), hx.Pick(g.Rng, []string{"w", "c", "s", "wf", "nw", "iw"}))
 		case 3:
 			in = "panic"
 		default:
 			in = fmt.Sprintf("panicafter:%s:%s", st, hx.H(body))
 		}
-		g.Case(strings.Join(stack, ","), hx.Pick(g.Rng, []string{"html", "bin"}), strconv.Itoa(g.Rng.Intn(2)), in)
+		g.Case(strings.Join(stack, ","), hx.Pick(g.Rng, []string{"html", "bin", "html", "bin", "html-head", "bin-head"}), strconv.Itoa(g.Rng.Intn(2)), in)
 	}
 }
 
@@ -621,7 +707,11 @@ func c12Gen(g *hx.Gen) {
 // script, then a plain request on the same keep-alive connection, then one on a fresh connection.
 
 func c12Get(tr *http.Transport, addr, path, probe string, ae bool) (int, string, string, []byte, error) {
-	req, err := http.NewRequest("GET", "http://"+addr+path, nil)
+	return c12GetM(tr, "GET", addr, path, probe, ae)
+}
+
+func c12GetM(tr *http.Transport, method, addr, path, probe string, ae bool) (int, string, string, []byte, error) {
+	req, err := http.NewRequest(method, "http://"+addr+path, nil)
 	if err != nil {
 		return 0, "", "", nil, err
 	}
@@ -659,9 +749,41 @@ func c12LiveEval(f []string) (string, []string) {
 		return "bad-case", nil
 	}
 	sp := strings.Split(f[3], ":")
+	key := c12Key(f[0])
+	follow := func(t *http.Transport) string {
+		st, _, _, b, err := c12Get(t, addr, "/ok.txt", "", false)
+		if err != nil || st != 200 || string(b) != c12Follow {
+			return "bad"
+		}
+		// a rendered, compressed template: compared with what the fresh site answered
+		st2, ce2, _, b2, err := c12Get(t, addr, "/x.html", c12FollowProbe, true)
+		got := fmt.Sprintf("%d %s", st2, c12Classify(ce2, b2, []byte(c12Bodies["tok"])))
+		if err != nil {
+			got = "ERR"
+		}
+		if base, ok := c12BaseLive[key]; !ok {
+			c12BaseLive[key] = got
+		} else if base != got {
+			return "bad"
+		}
+		return "ok"
+	}
+	if _, ok := c12BaseLive[key]; !ok {
+		// first use of this (fresh) instance in this stream: record its answers
+		trb := &http.Transport{DisableCompression: true}
+		follow(trb)
+		trb.CloseIdleConnections()
+	}
 	tr := &http.Transport{DisableCompression: true, MaxIdleConnsPerHost: 1}
 	defer tr.CloseIdleConnections()
-	st, ce, declared, body, err := c12Get(tr, addr, path, f[3], f[2] == "1")
+	method := "GET"
+	if strings.HasSuffix(f[1], "-head") {
+		method = "HEAD"
+	}
+	st, ce, declared, body, err := c12GetM(tr, method, addr, path, f[3], f[2] == "1")
+	if method == "HEAD" || st == 204 || st == 304 {
+		declared = "" // describes the body a GET would get / not sent at all
+	}
 	out := ""
 	if err != nil {
 		out = fmt.Sprintf("%d ! ERR:%s", st, strings.ReplaceAll(err.Error(), " ", "_"))
@@ -671,13 +793,6 @@ func c12LiveEval(f []string) (string, []string) {
 			cl = "!"
 		}
 		out = fmt.Sprintf("%d %s %s", st, cl, c12Classify(ce, body, inner))
-	}
-	follow := func(t *http.Transport) string {
-		st, _, _, b, err := c12Get(t, addr, "/ok.txt", "", false)
-		if err != nil || st != 200 || string(b) != c12Follow {
-			return "bad"
-		}
-		return "ok"
 	}
 	f1 := follow(tr)
 	tr2 := &http.Transport{DisableCompression: true}
@@ -695,6 +810,8 @@ func c12LiveGen(g *hx.Gen) {
 			c12Write("-", k, 0, 1, "fw"), c12Write("200", k, 0, 0, "nw"),
 			"file:"+k+":"+hx.HS(c12Bodies[k]))
 	}
+	inners = append(inners, c12Write("204", "plain", 0, 1, "w"), c12Write("304", "tok", 0, 0, "w"),
+		c12Write("200", "plain", 0, 1, "iw"), c12Write("404", "tok", 0, 0, "iw"), c12Write("200", "texec", 0, 1, "iw"))
 	for m := 0; m < 1<<len(c12Semantic); m++ {
 		for _, em := range c12ErrModes {
 			var stack []string
@@ -716,6 +833,9 @@ func c12LiveGen(g *hx.Gen) {
 					p = "bin"
 				}
 				g.Case(strings.Join(stack, ","), p, "1", in)
+				if !strings.HasPrefix(in, "panicafter") && (g.Thorough() || g.Rng.Chance(1, 3)) {
+					g.Case(strings.Join(stack, ","), "html-head", "1", in)
+				}
 				if g.Thorough() {
 					g.Case(strings.Join(stack, ","), "bin", "0", in)
 				}
